@@ -141,6 +141,11 @@ impl PSem {
                     return ConvRes::Skipped; // the zero date has no chrono representation
                 }
                 if *ty == 0x0a {
+                    if *len != 4 {
+                        // DATE in the 7/11-byte forms is legal on the wire and must be delivered raw;
+                        // which Rust type "corresponds" to a DATE with a time part is not defined
+                        return ConvRes::Skipped;
+                    }
                     ConvRes::Date(*y as i32, *mo as u32, *d as u32)
                 } else {
                     ConvRes::DateTime(*y as i32, *mo as u32, *d as u32, *h as u32, *mi as u32, *s as u32, *us)
@@ -184,7 +189,7 @@ fn convert(p: &ParamValue<'_>) -> ConvRes {
             ConvRes::Bytes(by.to_vec())
         }
         (_, ValueInner::Date(b)) => {
-            if b.is_empty() {
+            if b.len() != 4 {
                 return ConvRes::Skipped;
             }
             let d: NaiveDate = v.into();
@@ -360,7 +365,7 @@ impl Values {
         // every legal length form of the temporal types
         let mut temporal = Vec::new();
         for ty in [0x0au8, 0x0c, 0x07] {
-            let lens: &[u8] = if ty == 0x0a { &[0, 4] } else { &[0, 4, 7, 11] };
+            let lens: &[u8] = &[0, 4, 7, 11];
             for len in lens {
                 for (y, mo, d) in [(2020u16, 1u8, 2u8), (1, 1, 1), (9999, 12, 31), (2024, 2, 29)] {
                     for (h, mi, s, us) in [(3u8, 4u8, 5u8, 123456u32), (0, 0, 0, 1), (23, 59, 59, 999999), (12, 0, 0, 500000)] {
@@ -461,6 +466,67 @@ impl Family for Positions {
     fn describe(&self, idx: u64) -> J {
         let d = digits(idx, &[ALL_PARAM_TYPES.len() as u64, 2, ALL_PARAM_TYPES.len() as u64]);
         json!({"type_under_test": format!("{:#04x}", ALL_PARAM_TYPES[d[0] as usize]), "unsigned": d[1] == 1, "neighbour_type": format!("{:#04x}", ALL_PARAM_TYPES[d[2] as usize])})
+    }
+}
+
+/// consecutive executions of ONE statement that each bind their own type table: every ordered
+/// pair of (type code, unsigned) tables for a one-parameter statement, every pair of tables over
+/// the integer codes for a two-parameter statement, every triple over the integer codes — so a
+/// later table that differs from the earlier one only in a flag, only in one position, or not at
+/// all is always among them. Values have their top bit set, so a stale signedness shows.
+struct Rebinds {
+    mode: u8,
+}
+const INT_TYPES: [u8; 6] = [0x01, 0x02, 0x0d, 0x03, 0x09, 0x08];
+impl Rebinds {
+    fn tables(&self, idx: u64) -> Vec<Vec<(u8, bool)>> {
+        match self.mode {
+            0 => {
+                let n = ALL_PARAM_TYPES.len() as u64 * 2;
+                let d = digits(idx, &[n, n]);
+                d.iter().map(|x| vec![(ALL_PARAM_TYPES[(*x / 2) as usize], x % 2 == 1)]).collect()
+            }
+            1 => {
+                let n = INT_TYPES.len() as u64 * 2;
+                let d = digits(idx, &[n, n, n, n]);
+                vec![
+                    vec![(INT_TYPES[(d[0] / 2) as usize], d[0] % 2 == 1), (INT_TYPES[(d[1] / 2) as usize], d[1] % 2 == 1)],
+                    vec![(INT_TYPES[(d[2] / 2) as usize], d[2] % 2 == 1), (INT_TYPES[(d[3] / 2) as usize], d[3] % 2 == 1)],
+                ]
+            }
+            _ => {
+                let n = INT_TYPES.len() as u64 * 2;
+                let d = digits(idx, &[n, n, n]);
+                d.iter().map(|x| vec![(INT_TYPES[(*x / 2) as usize], x % 2 == 1)]).collect()
+            }
+        }
+    }
+}
+impl Family for Rebinds {
+    fn name(&self) -> String {
+        ["rebinds-one-parameter-all-type-pairs", "rebinds-two-parameters-integer-tables", "rebinds-one-parameter-integer-triples"][self.mode as usize].into()
+    }
+    fn len(&self) -> u64 {
+        let a = ALL_PARAM_TYPES.len() as u64 * 2;
+        let i = INT_TYPES.len() as u64 * 2;
+        match self.mode {
+            0 => a * a,
+            1 => i * i * i * i,
+            _ => i * i * i,
+        }
+    }
+    fn run(&self, idx: u64, st: &mut Stats) -> Result<(), Violation> {
+        let t = self.tables(idx);
+        st.nontrivial += 1;
+        st.bump("rebinds");
+        if t.windows(2).any(|w| w[0].iter().zip(w[1].iter()).all(|(a, b)| a.0 == b.0) && w[0] != w[1]) {
+            st.bump("rebinds_changing_only_flags");
+        }
+        let execs: Vec<Vec<PSem>> = t.iter().enumerate().map(|(k, tab)| tab.iter().enumerate().map(|(i, (ty, u))| sample_of(*ty, *u, 3 * k + i)).collect()).collect();
+        run_execs(t[0].len(), &execs, st)
+    }
+    fn describe(&self, idx: u64) -> J {
+        json!({"type_tables_bound_by_consecutive_executions": self.tables(idx).iter().map(|t| t.iter().map(|(ty, u)| format!("{:#04x}{}", ty, if *u { " unsigned" } else { "" })).collect::<Vec<_>>()).collect::<Vec<_>>()})
     }
 }
 
@@ -572,7 +638,7 @@ pub fn build(quick: bool) -> Check {
     Check {
         id: "C08",
         level: "model_checking",
-        rule: "COM_STMT_EXECUTE parameter blocks built from semantic values by the independent encoder and run through the real run_on; the shim records (type, raw inner value) and applies the documented Into<T> for the corresponding Rust type under catch_unwind. Domains: TINY, SHORT, YEAR exhaustive (signed and unsigned); LONG/INT24/LONGLONG over every 2^k, 2^k+-1 and the bounds; FLOAT/DOUBLE lattices incl. subnormals and infinities; byte strings of every length 0..300 and the length-class edges for all 14 string-like type codes, 65535..65537 (and around 2^24 in thorough); every legal length form of DATE (0,4), DATETIME/TIMESTAMP (0,4,7,11) and TIME (0,8,12) over boundary calendar values, negative TIME raw only; all 25 type codes x unsigned in four position classes next to every other type; parameter counts 0..17, 63, 64, 65, 255, 256, 300 with all 2^n NULL bitmaps for n <= 10 (8 in quick) and structured ones above; inline executions that follow an execution fed by long data. Oracle: exactly n parameters, type = bound code, raw value = encoded value, conversion = encoded value (zero dates and negative TIME have no chrono/Duration form and are checked raw).".into(),
+        rule: "COM_STMT_EXECUTE parameter blocks built from semantic values by the independent encoder and run through the real run_on; the shim records (type, raw inner value) and applies the documented Into<T> for the corresponding Rust type under catch_unwind. Domains: TINY, SHORT, YEAR exhaustive (signed and unsigned); LONG/INT24/LONGLONG over every 2^k, 2^k+-1 and the bounds; FLOAT/DOUBLE lattices incl. subnormals and infinities; byte strings of every length 0..300 and the length-class edges for all 14 string-like type codes, 65535..65537 (and around 2^24 in thorough); every legal length form of DATE/DATETIME/TIMESTAMP (0,4,7,11; DATE with a time part raw only) and TIME (0,8,12) over boundary calendar values, negative TIME raw only; all 25 type codes x unsigned in four position classes next to every other type; consecutive executions of one statement binding every ordered pair of (type, unsigned) tables (one parameter: all 50^2; two parameters: all 12^4 over the integer codes; triples 12^3), values with the top bit set; parameter counts 0..17, 63, 64, 65, 255, 256, 300 with all 2^n NULL bitmaps for n <= 10 (8 in quick) and structured ones above; inline executions that follow an execution fed by long data. Oracle: exactly n parameters, type = bound code, raw value = encoded value, conversion = encoded value (zero dates and negative TIME have no chrono/Duration form and are checked raw).".into(),
         assumptions: vec!["wider integer, float and string domains are covered at lattices".into()],
         bounds: json!({"all_bitmaps_up_to_params": if quick {8} else {10}}),
         exhaustive: true,
@@ -580,12 +646,15 @@ pub fn build(quick: bool) -> Check {
         families: vec![
             Box::new(Values::new(quick)),
             Box::new(Positions),
+            Box::new(Rebinds { mode: 0 }),
+            Box::new(Rebinds { mode: 1 }),
+            Box::new(Rebinds { mode: 2 }),
             Box::new(Bitmaps {
                 max_all: if quick { 8 } else { 10 },
                 big: vec![63, 64, 65, 255, 256, 300],
             }),
             Box::new(AfterLongData),
         ],
-        required: vec!["values_bound", "microsecond_forms", "second_bitmap_byte", "after_long_data"],
+        required: vec!["rebinds_changing_only_flags", "values_bound", "microsecond_forms", "second_bitmap_byte", "after_long_data"],
     }
 }
